@@ -134,7 +134,8 @@ func (tc *TypeChecker) CheckType(value interface{}, expectedType Type) error {
 	// to float64. Without this, an `int` field rejects the perfectly ordinary
 	// body {"id": 1} with "expected int, got float". A value with a fractional
 	// part is still a mismatch.
-	if _, wantInt := expectedType.(IntType); wantInt {
+	// The same holds where int is reached through `int?` or a union member.
+	if acceptsInt(expectedType) {
 		if f, ok := value.(float64); ok && f == math.Trunc(f) && !math.IsInf(f, 0) {
 			return nil
 		}
@@ -285,6 +286,24 @@ func (tc *TypeChecker) TypesCompatible(actual, expected Type) bool {
 		return true // All members compatible
 	}
 
+	return false
+}
+
+// acceptsInt reports whether an int value satisfies the type: int itself, an
+// optional int, or a union with such a member.
+func acceptsInt(t Type) bool {
+	switch tt := t.(type) {
+	case IntType:
+		return true
+	case OptionalType:
+		return acceptsInt(tt.InnerType)
+	case UnionType:
+		for _, member := range tt.Types {
+			if acceptsInt(member) {
+				return true
+			}
+		}
+	}
 	return false
 }
 
